@@ -13,6 +13,7 @@ import (
 	"fmt"
 	"strings"
 
+	"go.starlark.net/resolve"
 	"go.starlark.net/starlark"
 	"go.starlark.net/syntax"
 
@@ -191,7 +192,7 @@ func recMain(argv []string) {
 		// the same chain entered by the host: starlark.Call on an idle thread, no <toplevel> frame below
 		goEvents := events[1 : len(events)-1]
 		for _, rec := range []bool{false, true} {
-			for _, entry := range []string{"file", "go"} {
+			for _, entry := range []string{"file", "go", "legacy"} {
 				thread := &starlark.Thread{Name: "c09rec"}
 				thread.SetMaxExecutionSteps(1000000)
 				obs := ""
@@ -201,6 +202,19 @@ func recMain(argv []string) {
 							obs = fmt.Sprintf("other:panic: %v", r)
 						}
 					}()
+					if entry == "legacy" {
+						// the legacy entry point: Recursion comes from resolve.AllowRecursion (and from nothing else)
+						r0, g0 := resolve.AllowRecursion, resolve.AllowGlobalReassign
+						resolve.AllowRecursion, resolve.AllowGlobalReassign = rec, !rec
+						defer func() { resolve.AllowRecursion, resolve.AllowGlobalReassign = r0, g0 }()
+						g, err := starlark.ExecFile(thread, "g.star", src, nil)
+						if err == nil {
+							obs = "ok:" + g["r1"].String() + "," + g["r2"].String()
+						} else {
+							obs = classify(err)
+						}
+						return
+					}
 					if entry == "file" {
 						g, err := starlark.ExecFileOptions(&syntax.FileOptions{Recursion: rec}, thread, "g.star", src, nil)
 						if err == nil {
@@ -261,6 +275,6 @@ func recMain(argv []string) {
 			}
 		}
 	}
-	hx.Emit(map[string]any{"kind": "recsummary", "graphs": *n, "runs": 4 * *n, "problems": problems, "dist": dist})
+	hx.Emit(map[string]any{"kind": "recsummary", "graphs": *n, "runs": 6 * *n, "problems": problems, "dist": dist})
 	hx.Flush()
 }
